@@ -1,6 +1,7 @@
 import LocustModel.Lemmas.C09Reach
 import LocustModel.Lemmas.C09Example
 import LocustModel.Lemmas.C09Deletes
+import LocustModel.Lemmas.C09Tile
 /-
   C09 — recovery after a crash at any point is possible and atomic.  Property theorems only.
 
@@ -227,6 +228,21 @@ example : ∃ fs, Reach ⟨fs, some exMemAfter, exLogAfter⟩ ∧
     ((exTrace exMemAfter exLast).filter (fun e => match e with | .remove _ => true | _ => false)).length = 4 := by
   obtain ⟨fs, h⟩ := ex_history
   exact ⟨fs, h, ex_plan (by decide), ex_trace, by decide⟩
+
+/-- **Partition ranges tile** (`Durable`, clause 2): in the state any recovery returns, the partitions of every table, in
+    order, start at offset 0, each begins where the previous ends, and `len` is the number of rows of the partition file —
+    `Table::batch` places a partition at `next_partition_offset` (restored as max of `offset + len`), a compaction replaces a
+    suffix by one partition at the suffix's first offset. -/
+theorem C09_ranges_tile (w : World) (h : Reach w) (ls : List Path) (hls : Listing w.fs ls) (m : Mem) (dels : List Path)
+    (hr : recover w.fs ls = .ok (m, dels)) : Tiled m.parts := by
+  obtain ⟨m0, hd, ht, _⟩ := Reach.dur_inv (Inv := fun m => Tiled m.parts) tiled_fresh plan_tiled h
+  obtain ⟨dels0, hr0, _⟩ := hd.recover hls
+  rw [hr0] at hr
+  simp only [Except.ok.injEq, Prod.mk.injEq] at hr
+  exact hr.1 ▸ ht
+
+/-- non-vacuity: after the concrete history table `t` has partitions [0,2) and [2,3). -/
+example : (partsOf exMemAfter.parts "t").map (fun p => (p.pm.offset, p.pm.len)) = [(0, 2), (2, 1)] := by decide
 
 /-- non-vacuity: garbage that differs — a torn temp segment and an orphan partition file added to a reachable state. -/
 example : ∃ w fs', Reach w ∧ fs' (finP .catalogue) = w.fs (finP .catalogue) ∧ (∀ k, fs' (finP (.wal k)) = w.fs (finP (.wal k))) ∧
